@@ -48,6 +48,8 @@ type Case struct {
 	CloudFail []int     `json:"cloud_fail,omitempty"` // indexes of provider calls that fail cleanly
 	Lag       bool      `json:"lag,omitempty"`
 	FaultAt   *FaultAt  `json:"fault_at,omitempty"`
+	// NoNameReuse: a pod name is used by one incarnation only (deployment pods get random name suffixes)
+	NoNameReuse bool `json:"no_name_reuse,omitempty"`
 }
 
 // OpResult is what an executed op produced.
@@ -123,21 +125,23 @@ type Exec struct {
 	ConfInForce []PoolT // configuration the running IPAM has loaded
 	confIdx     int
 	container   *restful.Container
-	fipEvents   []fipEvent
 	Stats       map[string]int
 	InEpisode   bool
 	failure     *vcore.Failure
 	OpIndex     int
 	// configurations that reload ops of the current top-level op / episode are switching to
 	ReloadTargets [][]PoolT
+	ConfAtOpStart []PoolT
+	LastQuiescent *Snapshot       // IPAM memory at the start of the current top-level op
+	Reserved      map[string]bool // IPs an administrator currently reserves with a labelled FloatingIP
+	// MixedKeys: pod keys that at some point held IPs recorded with two different pod uids (an IP of an older
+	// incarnation re-allocated by the pod-IP sync of a stale update event); LastKey: last owner key seen per IP
+	MixedKeys map[string]bool
+	LastKey   map[string]string
 	// bookkeeping for oracles
 	LastResults []*OpResult
 }
 
-type fipEvent struct {
-	add bool
-	obj *v1alpha1.FloatingIP
-}
 
 func (x *Exec) count(k string) { x.Stats[k]++ }
 
@@ -147,7 +151,7 @@ func NewExec(c *Case, rec *vcore.Rec, obs ...Observer) (*Exec, error) {
 	if err != nil {
 		return nil, err
 	}
-	x := &Exec{W: w, C: c, Rec: rec, Obs: obs, ConfInForce: c.Topo.Pools, Stats: map[string]int{}}
+	x := &Exec{W: w, C: c, Rec: rec, Obs: obs, ConfInForce: c.Topo.Pools, Stats: map[string]int{}, Reserved: map[string]bool{}}
 	if len(c.CloudFail) > 0 {
 		max := 0
 		for _, i := range c.CloudFail {
@@ -194,6 +198,28 @@ func (x *Exec) buildAPI() {
 	ws.Route(ws.DELETE("/pool/{name}").To(func(r *restful.Request, resp *restful.Response) { pc().Delete(r, resp) }))
 	x.container = restful.NewContainer()
 	x.container.Add(ws)
+}
+
+// trackMixed maintains MixedKeys / LastKey (classification of a known finding, see known_findings.txt).
+func (x *Exec) trackMixed() {
+	alloc, _, ok := x.W.TryTables()
+	if !ok {
+		return
+	}
+	if x.MixedKeys == nil {
+		x.MixedKeys, x.LastKey = map[string]bool{}, map[string]string{}
+	}
+	uidOf := map[string]string{}
+	for ip, f := range alloc {
+		x.LastKey[ip] = f.Key
+		if f.PodUid == "" || f.Key == "" {
+			continue
+		}
+		if u, ok := uidOf[f.Key]; ok && u != f.PodUid {
+			x.MixedKeys[f.Key] = true
+		}
+		uidOf[f.Key] = f.PodUid
+	}
 }
 
 // HTTP performs a request against the real API routes (in-process).
@@ -305,6 +331,9 @@ func (x *Exec) opClosure(op Op, res *OpResult) (string, func()) {
 				res.BeforeBind = w.Snap()
 				res.Err = w.Plugin.Bind(bindArgs(p, node))
 				res.BoundNow = res.Err == nil && p.Bound
+				w.mu.Lock()
+				p.Filtered = nil // a filter result is consumed by one bind attempt; the scheduler filters again before retrying
+				w.mu.Unlock()
 				res.Info += " bind=" + node
 			}
 		}
@@ -322,6 +351,9 @@ func (x *Exec) opClosure(op Op, res *OpResult) (string, func()) {
 			res.BeforeBind = res.Before
 			res.Err = w.Plugin.Bind(bindArgs(p, node))
 			res.BoundNow = res.Err == nil && p.Bound
+			w.mu.Lock()
+			p.Filtered = nil
+			w.mu.Unlock()
 			res.Info = "bind=" + node
 		}
 	case "unbind":
@@ -370,6 +402,11 @@ func (x *Exec) opClosure(op Op, res *OpResult) (string, func()) {
 				w.mu.Lock()
 				x.ConfInForce = x.C.Configs[idx]
 				x.confIdx = idx
+				for ip := range x.Reserved {
+					if !inConfig(x.ConfInForce, ip) {
+						delete(x.Reserved, ip) // the reload deleted the object of an IP that is not configured any more
+					}
+				}
 				w.mu.Unlock()
 			}
 		}
@@ -416,14 +453,14 @@ func (x *Exec) opClosure(op Op, res *OpResult) (string, func()) {
 			w.mu.Unlock()
 		}
 	case "fipevent":
-		if len(x.fipEvents) == 0 {
+		if len(x.W.FipEvents) == 0 {
 			res.NoOp = true
 			return "", nil
 		}
-		ev := x.fipEvents[0]
-		x.fipEvents = x.fipEvents[1:]
-		res.Info = fmt.Sprintf("fip add=%v %s", ev.add, ev.obj.Name)
-		return "fipevent", func() { w.DeliverFIPEvent(ev.add, ev.obj) }
+		ev := x.W.FipEvents[0]
+		x.W.FipEvents = x.W.FipEvents[1:]
+		res.Info = fmt.Sprintf("fip add=%v %s", ev.Add, ev.Obj.Name)
+		return "fipevent", func() { w.DeliverFIPEvent(ev.Add, ev.Obj) }
 	}
 	return "", nil
 }
@@ -475,6 +512,9 @@ func (x *Exec) harnessOp(op Op, res *OpResult) bool {
 			}
 			for j := 0; j < slots; j++ {
 				n := wl.PodName(j)
+				if x.C.NoNameReuse && w.Pods[n] != nil {
+					continue
+				}
 				if w.truthPod(n) == nil {
 					absent = append(absent, slot{wi, n})
 				}
@@ -496,7 +536,7 @@ func (x *Exec) harnessOp(op Op, res *OpResult) bool {
 		// delete an existing pod and immediately create a new incarnation with the same name (statefulset
 		// controllers do exactly this)
 		c := x.existingPods(nil)
-		if len(c) == 0 {
+		if len(c) == 0 || x.C.NoNameReuse {
 			res.NoOp = true
 			return true
 		}
@@ -612,7 +652,8 @@ func (x *Exec) harnessOp(op Op, res *OpResult) bool {
 			return true
 		}
 		obj, _ := w.Galaxy.Tracker().Get(fipGVR, "", ip)
-		x.fipEvents = append(x.fipEvents, fipEvent{true, obj.(*v1alpha1.FloatingIP)})
+		x.W.FipEvents = append(x.W.FipEvents, FipEvent{true, obj.(*v1alpha1.FloatingIP)})
+		x.Reserved[ip] = true
 		res.Info = ip
 	case "unreserve":
 		var resv []string
@@ -629,13 +670,14 @@ func (x *Exec) harnessOp(op Op, res *OpResult) bool {
 		ip := resv[pick(len(resv), op.A)]
 		obj, _ := w.Galaxy.Tracker().Get(fipGVR, "", ip)
 		_ = w.DelReserved(ip)
-		x.fipEvents = append(x.fipEvents, fipEvent{false, obj.(*v1alpha1.FloatingIP)})
+		x.W.FipEvents = append(x.W.FipEvents, FipEvent{false, obj.(*v1alpha1.FloatingIP)})
+		delete(x.Reserved, ip)
 		res.Info = ip
 	case "restart":
 		if err := w.Restart(); err != nil {
 			res.Err = err
 		}
-		x.fipEvents = nil // a fresh informer lists the store; the new IPAM read it in ConfigurePool
+		x.W.FipEvents = nil // a fresh informer lists the store; the new IPAM read it in ConfigurePool
 		x.ConfInForce = x.currentConfigFromCM()
 		x.buildAPI()
 	default:
@@ -688,6 +730,8 @@ func (x *Exec) runOne(i int, op Op) *vcore.Failure {
 	w := x.W
 	res := &OpResult{}
 	x.ReloadTargets = nil
+	x.ConfAtOpStart = x.ConfInForce
+	x.LastQuiescent = w.Snap()
 	if op.K == "quiesce" {
 		return x.quiesce(i, op)
 	}
@@ -730,11 +774,12 @@ func (x *Exec) runOne(i int, op Op) *vcore.Failure {
 		if err := w.Restart(); err != nil {
 			return vcore.Failf("harness:restart", "restart after crash failed: %v", err)
 		}
-		x.fipEvents = nil
+		x.W.FipEvents = nil
 		x.ConfInForce = x.currentConfigFromCM()
 		x.buildAPI()
 		x.Rec.Logf("    -- crashed, restarted: %s", w.DumpState())
 	}
+	x.trackMixed()
 	for _, o := range x.Obs {
 		if f := o.AfterOp(x, i, op, res); f != nil {
 			return f
@@ -777,6 +822,7 @@ func (x *Exec) quiesce(i int, op Op) *vcore.Failure {
 		}
 		w.runOp(fn)
 		x.Rec.Logf("      quiesce/%s %s => %s", k, res.Info, w.DumpState())
+		x.trackMixed()
 		for _, o := range x.Obs {
 			if f := o.AfterOp(x, i, Op{K: k}, res); f != nil {
 				return true, f
@@ -802,7 +848,7 @@ func (x *Exec) quiesce(i int, op Op) *vcore.Failure {
 			break
 		}
 	}
-	for len(x.fipEvents) > 0 {
+	for len(x.W.FipEvents) > 0 {
 		if _, f := sub("fipevent"); f != nil {
 			return f
 		}
@@ -827,7 +873,17 @@ func (x *Exec) episode(i int, op Op) *vcore.Failure {
 	var results []*OpResult
 	var subs []Op
 	claimed := map[string]bool{}
+	single := map[string]bool{}
 	for _, sub := range op.Sub {
+		// single-goroutine sources in galaxy-ipam: the configmap poll loop (reload), the resync loop (resync, then
+		// pod-IP sync) and the informer's handler goroutine (event delivery) never run twice at the same time
+		class := map[string]string{"reload": "reload", "resync": "resync", "syncips": "resync", "deliver": "deliver", "fipevent": "fipevent"}[sub.K]
+		if class != "" {
+			if single[class] {
+				continue
+			}
+			single[class] = true
+		}
 		res := &OpResult{}
 		if x.harnessOp(sub, res) {
 			continue // harness-only ops are not part of concurrent episodes
@@ -858,6 +914,7 @@ func (x *Exec) episode(i int, op Op) *vcore.Failure {
 		if stepFail != nil {
 			return
 		}
+		x.trackMixed()
 		for _, o := range x.Obs {
 			if f := o.AfterStep(x); f != nil {
 				stepFail = f
